@@ -19,7 +19,8 @@ VERIF = os.path.dirname(os.path.dirname(os.path.abspath(__file__)))
 REPO = os.environ.get("NMEA2000_REPO", "/repo")
 COQ = os.path.join(VERIF, "coq")
 THEORIES = os.path.join(COQ, "theories")
-BUILD = os.path.join(VERIF, "build")
+BUILD = os.environ.get("VERIF_BUILD") or os.path.join(VERIF, "build")   # VERIF_BUILD: private scratch build dir (parallel runs against scratch worktrees)
+OUT = os.environ.get("VERIF_OUT") or VERIF   # VERIF_OUT: where evidence/ and replays/ go (scratch evaluations of seeded changes)
 GUARD = "NMEA2000_VERIF"
 NCPU = max(1, min(16, os.cpu_count() or 1))
 
@@ -208,7 +209,7 @@ def known_findings() -> list[dict]:
 
 
 def write_replay(prop: str, data: dict) -> str:
-    d = os.path.join(VERIF, "replays")
+    d = os.path.join(OUT, "replays")
     os.makedirs(d, exist_ok=True)
     blob = json.dumps(data, sort_keys=True, default=str)
     h = hashlib.sha256(blob.encode()).hexdigest()[:10]
